@@ -504,7 +504,7 @@ func init() {
 	harness.Register(&harness.Check{
 		ID:          "C18",
 		Level:       "exploration",
-		Rule:        "every profile-derived string site (function, system name, file, mapping file of first and second binary, build id, comment, label key, label value, numeric-label unit and key, sample type and unit, doc URL) x 35 hostile strings (quotes, backslashes incl. trailing, newlines, CR, angle brackets, braces, pipes, semicolons, DOT escapes \\l \\N, brackets, arrows, non-ASCII, callgrind look-alikes, script tags), enumerated exhaustively as (site, string) pairs, x random {granularity, call_tree, trim, tags on/off, tagroot}; a third of the profiles are diff-shaped (a sample and its negation, with equal or different numeric tags, so entries and tags of zero weight exist); callgrind additionally under coarse -unit (s, hours, ms, us) and -mean where small costs print as 0; part dot: the output must parse with the independent Graphviz grammar (string lexing per scan.l) and every edge endpoint must be declared; part callgrind: header, every line matches a callgrind line form, (n) references defined before use and never redefined, positions decode (absolute or relative to the previous position) to addresses of the profile, self costs sum to the samples' total; part html: 9 markup tokens (two of them absolute URLs with markup in the query) x sites; /top /flamegraph /peek /source /disasm / pages never contain the token verbatim. non-trivial = every case; distinct = (site, string, options)",
+		Rule:        "every profile-derived string site (function, system name, file, mapping file of first and second binary, build id, comment, label key, label value, numeric-label unit and key, sample type and unit, doc URL) x 35 hostile strings (quotes, backslashes incl. trailing, newlines, CR, angle brackets, braces, pipes, semicolons, DOT escapes \\l \\N, brackets, arrows, non-ASCII, callgrind look-alikes, script tags), enumerated exhaustively as (site, string) pairs, x random {granularity, call_tree, trim, tags on/off, tagroot}; a third of the profiles are diff-shaped (a sample and its negation, with equal or different numeric tags, so entries and tags of zero weight exist); callgrind additionally under coarse -unit (s, hours, ms, us) and -mean where small costs print as 0; part dot: the output must parse with the independent Graphviz grammar (string lexing per scan.l) and every edge endpoint must be declared; part callgrind: header, every line matches a callgrind line form, (n) references defined before use and never redefined, positions decode (absolute or relative to the previous position) to addresses of the profile, self costs sum to the samples' total; part html: 9 markup tokens (two of them absolute URLs with markup in the query) x sites; /top /flamegraph /peek /source /disasm / pages never contain the token verbatim. part paralleldot: several DOT documents composed at the same time from one graph equal the sequential ones and parse. non-trivial = every case; distinct = (site, string, options)",
 		Assumptions: []string{"graphviz is not installed: validity is decided by the harness's own DOT grammar", "call targets in callgrind are decoded under pprof's own relative scheme only for self-cost lines"},
 		Parts: []harness.Part{
 			{Name: "dot", Quick: 3 * n, Thor: 120 * n, Run: runDOT},
